@@ -167,10 +167,16 @@ def _with_channel(cases):
         ch = "lines"
         if R.file_safe(c["lines"]) and c.get("override") is None:
             ch = ("lines", "path", "gz")[k % 3]
+            if R.focused_fn("reader_from") and k % 3 == 0 and k % 2 == 0:
+                ch = "path"         # the path entry point changed: read more files through it
         if c["shape"].get("stream") == "blank-lines":
             ch = ("path", "gz")[k % 2]
         out.append(dict(c, channel=ch))
     return out
+
+
+def focus(changed):
+    R.set_focus(changed)
 
 
 def generate(rng, n):
